@@ -484,7 +484,28 @@ def macros_sweep(n: int, seed: int) -> Tuple[Dict[str, Any], List[Dict[str, Any]
         if "error" in a or "error" in b or a.get("regex") != b.get("regex"):
             viol.append({"input": {"rule": rule, "macros_files": docs, "inlined": INL.inline(rule, docs)}, "real": {"macro": a, "inlined": b},
                          "disagreement": "the rule written with macros does not compile to the same matcher as the manually inlined rule"})
-    return {"macros_sweep": {"cases": len(cases), "bound": "factorings of den_sweep rules into <= 6 macros (whole item, name, times body, "
+    # extra macro files through the public entry point (MatchConfig -> MasterOfPuppets), given in an order that is NOT the order of their
+    # names: a macro of the first file uses macros of the second one (the supported direction), in a name and as a whole value
+    idioms = {"macros": [{"name": "@clear_acc", "pattern": [{"xor": ["%@acc", "%@acc"]}]},
+                         {"name": "@leave_function", "pattern": ["@ret_like"]}]}
+    accs = {"macros": [{"name": "@acc", "pattern": "eax"}, {"name": "@ret_like", "pattern": "ret"}]}
+    order_listing = listing_of([("401000", "push", ["%rbp"]), ("401001", "xor", ["%eax", "%eax"]), ("401003", "ret", [""])])
+    modes = [["matched_addrs_list", "all_finds", True]]
+    ojobs = []
+    for names in (["z_idioms.yaml", "a_accumulators.yaml"], ["a_idioms.yaml", "z_accumulators.yaml"]):
+        ojobs.append({"kind": "mop", "rule": {"pattern": ["@clear_acc", "@leave_function"]}, "macros_files": [idioms, accs],
+                      "macros_file_names": names, "listing": order_listing, "modes": modes})
+    ojobs.append({"kind": "mop", "rule": {"pattern": [{"xor": ["%eax", "%eax"]}, "ret"]}, "listing": order_listing, "modes": modes})
+    ores = replay.run_real(ojobs, timeout=600)
+    want = ores[-1].get("results")
+    for jb, r in zip(ojobs[:-1], ores[:-1]):
+        if r.get("results") != want:
+            viol.append({"input": {"rule": jb["rule"], "macros_files": jb["macros_files"], "macros_file_names": jb["macros_file_names"],
+                                   "listing": order_listing},
+                         "real": {"macro": r.get("results"), "inlined": want},
+                         "disagreement": "a rule whose macros come from two extra files (given in the supported order) does not match like the inlined rule "
+                                         f"when the files are named {jb['macros_file_names']}"})
+    return {"macros_sweep": {"cases": len(cases) + 2, "bound": "factorings of den_sweep rules into <= 6 macros (whole item, name, times body, "
                              "parameterised with two calls, inside a name, nested), split over <= 2 extra files; seeded random"}}, viol
 
 
@@ -1397,6 +1418,13 @@ def rerun(prop: str, doc: Dict[str, Any], path: str) -> int:
         why = replay.compare(inp["rule"], OR.records_from_instructions(inp["instructions"]), r)
         print(json.dumps({"real": r, "disagreement": why}, indent=1)[:2000])
         bad = bool(why)
+    elif "rule" in inp and "listing" in inp and "macros_file_names" in inp:
+        modes = [["matched_addrs_list", "all_finds", True]]
+        a = replay.run_real({"kind": "mop", "rule": inp["rule"], "macros_files": inp["macros_files"], "macros_file_names": inp["macros_file_names"],
+                             "listing": inp["listing"], "modes": modes})
+        b = replay.run_real({"kind": "mop", "rule": INL.inline(inp["rule"], inp["macros_files"]), "listing": inp["listing"], "modes": modes})
+        print(json.dumps({"macro_rule": a, "inlined_rule": b}, indent=1)[:2000])
+        bad = a.get("results") != b.get("results")
     elif "rule" in inp and "listing" in inp:
         r = replay.run_real({"kind": "mop", "rule": inp["rule"], "listing": inp["listing"], "modes": ALL_MODES})
         why = modes_agree(r)
